@@ -470,3 +470,120 @@ Section Final.
       try (specialize (Hx eq_refl); discriminate).
   Qed.
 End Final.
+
+(* ------------------------------------------------------------------ corollaries, in the words of the property *)
+
+Section Corollaries.
+  Variables (E : env) (L : layout) (gmin gmax : Z -> Z -> Z) (allnan : Z -> Z -> bool).
+  Hypothesis Hwf : wf_env E = true.
+  Hypothesis Hoff : 0 <= off L.
+  Hypothesis Hd : dmin L <= dmax L.
+  Let S := scene_of L gmin gmax.
+  (* C02: every cost of the pixel is NaN iff no disparity of the global interval is computable *)
+  Definition nan_pattern_ok (r c : Z) : Prop := allnan r c = true <-> no_cost S r c.
+
+  Let flag := after_mc E L allnan.
+
+  Lemma flag_expected : forall r c, in_img S r c -> nan_pattern_ok r c -> flag r c = expected_flag S r c.
+  Proof.
+    intros r c Hi Hn. apply after_mc_expected; try assumption.
+    apply bool_eq_iff. rewrite no_cost_b_iff. exact Hn.
+  Qed.
+
+  Lemma border_bit0_only : forall r c, border S r c -> nan_pattern_ok r c -> flag r c = 1.
+  Proof.
+    intros r c [Hi Hb] Hn. rewrite flag_expected by assumption. unfold expected_flag.
+    rewrite <- win_in_b_iff in Hb. destruct (win_in_b S r c); [congruence | reflexivity].
+  Qed.
+
+  Lemma nonborder_flag : forall r c, in_img S r c -> win_in S r c -> nan_pattern_ok r c ->
+    flag r c = b2z (cause0_b S r c) 0 + b2z (no_cost_b S r c) 1 + b2z (cause2_b S r c) 2
+               + b2z (cause6_b S r c) 6 + b2z (cause7_b S r c) 7.
+  Proof.
+    intros r c Hi Hw Hn. rewrite flag_expected by assumption. unfold expected_flag.
+    apply win_in_b_iff in Hw. rewrite Hw. reflexivity.
+  Qed.
+
+  Lemma bit0_iff : forall r c, in_img S r c -> win_in S r c -> nan_pattern_ok r c ->
+    (Z.testbit (flag r c) 0 = true <-> cause0 S r c).
+  Proof.
+    intros r c Hi Hw Hn. rewrite nonborder_flag by assumption. rewrite <- cause0_b_iff by assumption.
+    destruct (sum_bits (cause0_b S r c) (no_cost_b S r c) (cause2_b S r c) (cause6_b S r c) (cause7_b S r c))
+      as (H & _). rewrite H. tauto.
+  Qed.
+
+  Lemma bit1_iff : forall r c, in_img S r c -> win_in S r c -> nan_pattern_ok r c ->
+    (Z.testbit (flag r c) 1 = true <-> cause1 S r c).
+  Proof.
+    intros r c Hi Hw Hn. rewrite nonborder_flag by assumption. unfold cause1. rewrite <- no_cost_b_iff.
+    destruct (sum_bits (cause0_b S r c) (no_cost_b S r c) (cause2_b S r c) (cause6_b S r c) (cause7_b S r c))
+      as (_ & H & _). rewrite H. tauto.
+  Qed.
+
+  Lemma bit2_iff : forall r c, in_img S r c -> win_in S r c -> nan_pattern_ok r c ->
+    (Z.testbit (flag r c) 2 = true <-> cause2 S r c).
+  Proof.
+    intros r c Hi Hw Hn. rewrite nonborder_flag by assumption. rewrite <- cause2_b_iff.
+    destruct (sum_bits (cause0_b S r c) (no_cost_b S r c) (cause2_b S r c) (cause6_b S r c) (cause7_b S r c))
+      as (_ & _ & H & _). rewrite H. tauto.
+  Qed.
+
+  Lemma bit6_iff : forall r c, in_img S r c -> win_in S r c -> nan_pattern_ok r c ->
+    (Z.testbit (flag r c) 6 = true <-> cause6 S r c).
+  Proof.
+    intros r c Hi Hw Hn. rewrite nonborder_flag by assumption. rewrite <- cause6_b_iff.
+    destruct (sum_bits (cause0_b S r c) (no_cost_b S r c) (cause2_b S r c) (cause6_b S r c) (cause7_b S r c))
+      as (_ & _ & _ & H & _). rewrite H. tauto.
+  Qed.
+
+  Lemma bit7_iff : forall r c, in_img S r c -> win_in S r c -> nan_pattern_ok r c ->
+    (Z.testbit (flag r c) 7 = true <-> cause7 S r c).
+  Proof.
+    intros r c Hi Hw Hn. rewrite nonborder_flag by assumption. rewrite <- cause7_b_iff.
+    destruct (sum_bits (cause0_b S r c) (no_cost_b S r c) (cause2_b S r c) (cause6_b S r c) (cause7_b S r c))
+      as (_ & _ & _ & _ & H & _). rewrite H. tauto.
+  Qed.
+
+  (* nothing but bits 0, 1, 2, 6, 7 after the matching cost *)
+  Lemma mc_only_criteria_bits : forall r c, in_img S r c -> nan_pattern_ok r c ->
+    Z.land (flag r c) 199 = flag r c /\ 0 <= flag r c < 256.
+  Proof.
+    intros r c Hi Hn. rewrite flag_expected by assumption. unfold expected_flag.
+    destruct (win_in_b S r c); cbn [negb]; [|split; [reflexivity | lia]].
+    destruct (sum_bits (cause0_b S r c) (no_cost_b S r c) (cause2_b S r c) (cause6_b S r c) (cause7_b S r c))
+      as (_ & _ & _ & _ & _ & _ & H1 & H2). split; assumption.
+  Qed.
+
+  (* an invalid flag (bits 0, 1, 6, 7) iff none of the pixel's costs is computable *)
+  Lemma invalid_iff_nocost : forall r c, in_img S r c -> nan_pattern_ok r c ->
+    (Z.land (flag r c) 195 <> 0 <-> no_cost S r c).
+  Proof.
+    intros r c Hi Hn. rewrite flag_expected by assumption. unfold expected_flag.
+    destruct (win_in_b S r c) eqn:Hw; cbn [negb].
+    - destruct (sum_bits (cause0_b S r c) (no_cost_b S r c) (cause2_b S r c) (cause6_b S r c) (cause7_b S r c))
+        as (_ & _ & _ & _ & _ & H & _).
+      rewrite <- no_cost_b_iff.
+      assert (Hnc := nocost_of L gmin gmax).
+      assert (H0 : cause0_b S r c = true -> no_cost_b S r c = true).
+      { intro Hc. apply Hnc; [assumption..|]. unfold S in Hc. rewrite cause0_B0 in Hc by assumption. rewrite Hc.
+        rewrite !orb_true_r. reflexivity. }
+      assert (H6 : cause6_b S r c = true -> no_cost_b S r c = true).
+      { intro Hc. apply Hnc; [assumption..|]. change (cause6_b S r c) with (B6 L r c) in Hc. rewrite Hc.
+        rewrite !orb_true_r. reflexivity. }
+      assert (H7 : cause7_b S r c = true -> no_cost_b S r c = true).
+      { intro Hc. apply Hnc; [assumption..|]. unfold S in Hc. rewrite cause7_B7 in Hc by assumption. rewrite Hc.
+        rewrite !orb_true_r. reflexivity. }
+      destruct (no_cost_b S r c).
+      + rewrite orb_true_r in H. cbn in H. apply Z.eqb_neq in H. tauto.
+      + destruct (cause0_b S r c); [specialize (H0 eq_refl); discriminate|].
+        destruct (cause6_b S r c); [specialize (H6 eq_refl); discriminate|].
+        destruct (cause7_b S r c); [specialize (H7 eq_refl); discriminate|].
+        cbn in H. apply Z.eqb_eq in H. split; [tauto | discriminate].
+    - split; [|intros _; discriminate]. intros _ d Hdd Hc. destruct Hc as (Hc & _).
+      apply win_in_b_iff in Hc. congruence.
+  Qed.
+
+  Lemma invalid_iff_allnan : forall r c, in_img S r c -> nan_pattern_ok r c ->
+    (Z.land (flag r c) 195 <> 0 <-> allnan r c = true).
+  Proof. intros r c Hi Hn. rewrite invalid_iff_nocost by assumption. symmetry. exact Hn. Qed.
+End Corollaries.
